@@ -304,6 +304,7 @@ func TestVerifC03(t *testing.T) {
 		{"inhibitor-3src-all", 3, 4, 5, false},
 		{"inhibitor-two-equal-labels", 3, 4, 6, true},
 		{"inhibitor-two-rules-same-matchers", 3, 3, 5, false},
+		{"inhibitor-no-equal-labels", 3, 4, 5, true},
 	}
 	deadline := rep.Deadline(10 * time.Minute)
 	src1, probes1 := c03Sources, c03Probes
@@ -311,6 +312,11 @@ func TestVerifC03(t *testing.T) {
 		c03Sources, c03Probes, c03Equal, c03MoreEqual = src1, probes1, []string{"e"}, nil
 		if c.part == "inhibitor-two-equal-labels" {
 			c03Sources, c03Probes, c03Equal = c03Sources2, c03Probes2, []string{"e", "f"}
+		}
+		if c.part == "inhibitor-no-equal-labels" {
+			// a rule without an equal list: any firing source inhibits any target - except that an alert matching both
+			// sides is still not inhibited by a source that matches both sides (itself included)
+			c03Equal = []string{}
 		}
 		if c.part == "inhibitor-two-rules-same-matchers" {
 			c03Sources, c03Probes, c03Equal, c03MoreEqual = c03Sources2, c03Probes2, []string{"e"}, [][]string{{"f"}}
